@@ -192,7 +192,7 @@ class BinHarness:
             props = MapM([[StrV.lit(pn), Cell(self.prop_descriptor(pn, **pd) if isinstance(pd, dict) else pd)] for pn, pd in c.get('properties', {}).items()], kind='HashMap')
             defaults = MapM([[StrV.lit(pn), Cell(self.const_value(*v) if isinstance(v, (tuple, list)) else v)] for pn, v in c.get('defaults', {}).items()], kind='HashMap')
             sup = Some(StrV.lit(c['superclass'])) if c.get('superclass') else NoneV()
-            cd = self.S('ClassDescriptor', name=StrV.lit(cn), tags=SetM([]), superclass=sup, properties=props, default_properties=defaults)
+            cd = self.S('ClassDescriptor', name=StrV.lit(cn), tags=SetM([Enum('ClassTag', t) for t in c.get('tags', [])]), superclass=sup, properties=props, default_properties=defaults)
             cm.entries.append([StrV.lit(cn), Cell(cd)])
         return self.S('ReflectionDatabase', version=ArrayV([mk_int(0, 'u32')] * 4), classes=cm, enums=MapM([], kind='HashMap'))
 
@@ -454,8 +454,17 @@ def tree_case(H, ex, case):
     for c in inst_order:
         members = [i for i in range(n) if classes[i] == c]
         chunks.append(inst_chunk(cids[c], c.encode(), [refs[i] for i in members], service=bool(case.get('service')) and ex.nondet(2, 'service format') == 1))
-        if case.get('unknown') and ex.nondet(2, 'unknown chunk') == 1:
-            chunks.append(chunk(b'XYZW', [sym_int(ex.fresh('junk'), 'u8') for _ in range(3)]))
+        if case.get('unknown') and c == inst_order[0] and ex.nondet(2, 'unknown chunk') == 1:          # at most one per file, after the first INST chunk
+            # an unknown chunk: any four name bytes that are not one of the names the format defines
+            # (one symbolic byte: any first byte that no defined name starts with, or "END" + any non-zero byte)
+            u = sym_int(ex.fresh('uname'), 'u8')
+            if ex.nondet(2, 'unknown chunk name shape') == 0:
+                ex.assume(z3.And([u.t != c_ for c_ in b'MSIPE']))
+                nm = [u] + B(b'YZW')
+            else:
+                ex.assume(u.t != 0)
+                nm = B(b'END') + [u]
+            chunks.append(nm + B(u32le(0)) + B(u32le(3)) + B(u32le(0)) + [sym_int(ex.fresh('junk'), 'u8') for _ in range(3)])
     perms = list(itertools.permutations(range(n)))
     row_order = (perms[case['row']] if 'row' in case else perms[ex.nondet(len(perms), 'PRNT row order')]) if n > 1 else (0,)
     chunks.append(prnt_chunk([refs[i] for i in row_order], [refs[shape[i]] if shape[i] >= 0 else z3.BitVecVal(0xffffffff, 32) for i in row_order]))
@@ -624,7 +633,7 @@ def db_json(classes):
     for cn, c in (classes or {}).items():
         def js(x):
             return [js(y) for y in x] if isinstance(x, (tuple, list)) else x
-        out[cn] = dict(superclass=c.get('superclass'), properties={pn: {k: js(x) for k, x in pd.items()} for pn, pd in c.get('properties', {}).items()},
+        out[cn] = dict(superclass=c.get('superclass'), tags=list(c.get('tags', [])), properties={pn: {k: js(x) for k, x in pd.items()} for pn, pd in c.get('properties', {}).items()},
                        defaults={pn: [v[0], v[1]] for pn, v in c.get('defaults', {}).items() if isinstance(v, (tuple, list))})
     return out
 
